@@ -67,138 +67,240 @@ def r1_atom_parser(ctx):
         fl = [norm(s) for s in first.body]
         ctx.form(any("float(" in s for s in fl) and any(s.startswith("return Atom(") and s.endswith(", {})") for s in fl), US,
                   "AtomParser", "a number becomes a factor without units", detail=fl)
-    # (b) track the residual text variable
-    assigns = [n for n in walk_no_nested(fn) if isinstance(n, ast.Assign) and len(n.targets) == 1
-               and isinstance(n.targets[0], ast.Name) and n.targets[0].id == p]
-    forms = []
-    for a in assigns:
-        v = a.value
-        s = norm(v)
-        if isinstance(v, ast.BinOp) and isinstance(v.op, ast.Add) and isinstance(v.left, ast.Constant) and norm(v.right) == p:
-            forms.append(("pad", v.left.value, a))
-        elif isinstance(v, ast.Subscript) and norm(v.value) == p and isinstance(v.slice, ast.Slice):
-            lo = norm(v.slice.lower) if v.slice.lower is not None else None
-            hi = norm(v.slice.upper) if v.slice.upper is not None else None
-            forms.append(("slice", (lo, hi), a))
-        elif isinstance(v, ast.Subscript) and norm(v.value) == p:
-            forms.append(("index", norm(v.slice), a))
-        else:
-            forms.append(("other", s, a))
-    kinds = [f[0] for f in forms]
-    idx = [f for f in forms if f[0] == "index"]
-    ctx.check(not idx, US, "AtomParser", "the text in front of the unit symbol is never cut down to a single character",
-              detail=[norm(f[2]) for f in idx] or None,
-              expected="slice that keeps the whole remainder (e.g. string[1:-len(base)])")
-    oth = [f for f in forms if f[0] == "other"]
-    if oth:
-        ctx.unrecognised(US, "AtomParser", "residual text update", f"unrecognised rewrite {[norm(f[2]) for f in oth]}")
+    _residual_text(ctx, fn, p)
+
+
+def _find(expr, pred):
+    return [n for n in ast.walk(expr) if pred(n)] if expr is not None else []
+
+
+def _is_table(n, name):
+    return norm(n) in (name, name + ".keys()")
+
+
+def _suffix_comp(n):
+    """[u for u in UNIT_STANDARD(.keys()) if T.endswith(u)] -> T, else None."""
+    if isinstance(n, (ast.ListComp, ast.GeneratorExp)) and len(n.generators) == 1 and _is_table(n.generators[0].iter, "UNIT_STANDARD"):
+        g = n.generators[0]
+        for t in g.ifs:
+            if isinstance(t, ast.Call) and isinstance(t.func, ast.Attribute) and t.func.attr == "endswith" and len(t.args) == 1 \
+                    and norm(t.args[0]) == norm(g.target) and norm(n.elt) == norm(g.target):
+                return t.func.value
+    return None
+
+
+def _residual_text(ctx, fn, p):
+    """Value-level reading of the parser: every expression is resolved along each path to an expression over the
+    parameter and the tables, so local names, temporaries and the statement layout do not matter."""
+    from ..flowexpr import expr_from, paths, same
+    S = ast.Name(id=p, ctx=ast.Load())
+    allp = paths(fn)
+    # drop the number-literal paths (first test true)
+    main = [q for q in allp if q.tests() and not (q.tests()[0].extra is True and "re.match" in norm(q.tests()[0].resolved))]
+    ctx.info["AtomParser paths"] = {"all": len(allp), "unit paths": len(main)}
+    if not main:
+        ctx.unrecognised(US, "AtomParser", "residual text", "no path past the number literal")
         return
-    pads = [f for f in forms if f[0] == "pad"]
-    ctx.check(len(pads) == 1 and pads[0][1] == " ", US, "AtomParser", "input is padded with exactly one leading blank",
-              detail=[norm(f[2]) for f in pads])
-    slices = [f for f in forms if f[0] == "slice"]
-    # exponent strip: string[:-len(exp)] where exp = m.group() of a regex anchored with $
-    exp_ok = base_ok = False
+    pads, exps, bases_ok, unknown_ok, rem, member, nonmember, singles = set(), [], [], [], [], [], [], []
+    prefix_by_suffix = False
     exp_pat = None
-    for n in ast.walk(fn):
-        if isinstance(n, ast.Call) and dotted_name(n.func) == "re.search" and len(n.args) == 2 and norm(n.args[1]) == p:
-            try:
-                exp_pat = Evaluator(ctx.repo, ctx.repo.module(US)).ev(n.args[0])
-            except AnalysisError:
-                exp_pat = None
-    for kind, (lo, hi), a in slices:
-        if lo is None and hi is not None and hi.startswith("-len("):
-            exp_ok = True
-        if lo == "1" and hi is not None and hi.startswith("-len("):
-            base_ok = hi == "-len(base)"
-    ctx.check(exp_ok and isinstance(exp_pat, str) and exp_pat.endswith("$"), US, "AtomParser",
-              "exponent is an anchored suffix and exactly its length is removed", detail={"pattern": exp_pat, "slices": [s[1] for s in slices]})
-    ctx.check(base_ok, US, "AtomParser", "unit symbol: the pad and exactly the matched suffix are removed, the rest is kept",
-              detail=[s[1] for s in slices], expected=("1", "-len(base)"))
-    # longest table suffix
-    src = norm(fn)
-    ctx.form(f"[u for u in UNIT_STANDARD.keys() if {p}.endswith(u)]" in src and "base = max(bases, key=len)" in src, US,
-              "AtomParser", "unit symbol is the longest table symbol that is a suffix",
-              expected="max(..., key=len) over UNIT_STANDARD symbols with endswith")
-    # unknown symbol rejected
-    unk = [n for n in walk_no_nested(fn) if isinstance(n, ast.If) and norm(n.test) == "bases"]
-    ctx.check(len(unk) == 1 and any(isinstance(x, ast.Raise) for x in unk[0].orelse), US, "AtomParser",
-              "no table symbol is a suffix => error")
-    # (c) prefix decision: whole-string membership, non-member non-empty text is an error
-    pre = [n for n in walk_no_nested(fn) if isinstance(n, ast.If) and norm(n.test) in
-           (f"{p} in UNIT_PREFIXES.keys()", f"{p} in UNIT_PREFIXES")]
-    if len(pre) != 1:
-        ends = [n for n in ast.walk(fn) if isinstance(n, (ast.ListComp, ast.GeneratorExp, ast.For)) and "UNIT_PREFIXES" in norm(n)
-                and f"{p}.endswith(" in norm(n)]
-        if ends or any("UNIT_PREFIXES" in norm(n.test) and "endswith" in norm(n) for n in walk_no_nested(fn) if isinstance(n, ast.If)):
-            ctx.violated(US, "AtomParser", "prefix is recognised by whole-string membership",
-                         detail="prefix matched with endswith: text in front of the prefix is dropped unmatched",
-                         expected=f"{p} in UNIT_PREFIXES")
+    cells = {}
+    for q in main:
+        search = None
+        for e in q.events:
+            for c in _find(e.resolved, lambda n: isinstance(n, ast.Call) and dotted_name(n.func) == "re.search" and len(n.args) == 2):
+                search = c
+        if search is None:
+            continue
+        X = search.args[1]
+        if isinstance(X, ast.BinOp) and isinstance(X.op, ast.Add) and isinstance(X.left, ast.Constant) and same(X.right, S):
+            pads.add(X.left.value)
         else:
-            ctx.unrecognised(US, "AtomParser", "prefix decision", "no `<text> in UNIT_PREFIXES` test found")
+            pads.add("?" + norm(X))
+        try:
+            exp_pat = Evaluator(ctx.repo, ctx.repo.module(US)).ev(search.args[0])
+        except AnalysisError:
+            exp_pat = None
+        matched = next((e.extra for e in q.tests() if same(e.resolved, search)), None)
+        if matched is None:
+            matched = next((not e.extra for e in q.tests() if isinstance(e.resolved, ast.UnaryOp) and same(e.resolved.operand, search)), None)
+        # subject of the table-suffix search
+        T = comp = None
+        for e in q.events:
+            for c in _find(e.resolved, lambda n: _suffix_comp(n) is not None):
+                comp, T = c, _suffix_comp(c)
+        if T is None:
+            continue          # path ends before the unit symbol is looked up (system unit, ...)
+        want_T = expr_from("X[:-len(M.group())]", X=X, M=search) if matched else X
+        exps.append((matched, same(T, want_T), norm(T)))
+        BASE = expr_from("max(C, key=len)", C=comp)
+        # empty candidate list => error
+        for e in q.tests():
+            neg = isinstance(e.resolved, ast.UnaryOp) and isinstance(e.resolved.op, ast.Not)
+            if same(e.resolved, comp) or (neg and same(e.resolved.operand, comp)):
+                empty = (not e.extra) if not neg else e.extra
+                if empty:
+                    unknown_ok.append(q.status == "raise")
+        has_base = any(_find(e.resolved, lambda n: same(n, BASE)) for e in q.events)
+        if q.status != "raise" or has_base:
+            bases_ok.append(has_base)
+        # membership test of the remainder
+        mt = None
+        for e in q.tests():
+            r = e.resolved
+            if isinstance(r, ast.Compare) and len(r.ops) == 1 and isinstance(r.ops[0], ast.In) and _is_table(r.comparators[0], "UNIT_PREFIXES"):
+                mt = e
+                break
+        for e in q.events:
+            for c in _find(e.resolved, lambda n: isinstance(n, (ast.ListComp, ast.GeneratorExp)) and len(n.generators) == 1
+                           and _is_table(n.generators[0].iter, "UNIT_PREFIXES") and "endswith" in norm(n)):
+                prefix_by_suffix = True
+        if mt is None:
+            if has_base and q.status != "raise":
+                member.append(None)
+            continue
+        L = mt.resolved.left
+        member.append(norm(mt.resolved))
+        want_L = expr_from("T[1:-len(B)]", T=T, B=BASE)
+        if same(L, want_L):
+            rem.append(("ok", norm(L)))
+        elif isinstance(L, ast.Subscript) and same(L.value, T) and not isinstance(L.slice, ast.Slice):
+            singles.append(norm(L))
+            rem.append(("index", norm(L)))
+        elif isinstance(L, ast.Subscript) and same(L.value, T) and isinstance(L.slice, ast.Slice):
+            rem.append(("slice", norm(L)))
+        else:
+            rem.append(("other", norm(L)))
+        after = q.tests()[q.tests().index(mt) + 1:]
+        if mt.extra is False:
+            # non-member: non-empty text must be an error
+            accepted = {norm(expr_from(t, L=L)): k for t, k in (("len(L) > 0", True), ("L", True), ("len(L) >= 1", True), ("L != ''", True),
+                                                                  ("len(L) == 0", False), ("not L", False), ("L == ''", False))}
+            if not after:
+                nonmember.append(("none", q.status))
+            else:
+                t = after[0]
+                k = norm(t.resolved)
+                if k in accepted:
+                    nonempty = t.extra == accepted[k]
+                    nonmember.append(("ok" if (q.status == "raise") == nonempty else "wrong-outcome", k))
+                elif isinstance(t.resolved, ast.Compare) and norm(t.resolved.left) == norm(expr_from("len(L)", L=L)):
+                    nonmember.append(("threshold", k))
+                else:
+                    nonmember.append(("other", k))
+        else:
+            cells.setdefault("paths", []).append((q, L, BASE, after))
+    ctx.check(pads == {" "}, US, "AtomParser", "input is padded with exactly one leading blank", detail=sorted(pads)) if not any(str(x).startswith("?") for x in pads) and pads \
+        else ctx.unrecognised(US, "AtomParser", "input is padded with exactly one leading blank", f"searched text is {sorted(pads)}")
+    bad = [e for e in exps if not e[1]]
+    if not exps:
+        ctx.unrecognised(US, "AtomParser", "exponent is an anchored suffix and exactly its length is removed", "no table-suffix search found after the exponent search")
+    else:
+        ctx.check(not bad and isinstance(exp_pat, str) and exp_pat.endswith("$"), US, "AtomParser",
+                  "exponent is an anchored suffix and exactly its length is removed",
+                  detail={"pattern": exp_pat, "text searched for the unit symbol": sorted({("exponent found: " if e[0] else "no exponent: ") + e[2] for e in exps})},
+                  expected="text[:-len(m.group())] when the exponent matched, the unchanged text otherwise")
+    ctx.form(bool(bases_ok) and all(bases_ok), US, "AtomParser", "unit symbol is the longest table symbol that is a suffix",
+             expected="max(..., key=len) over UNIT_STANDARD symbols with endswith")
+    ctx.check(bool(unknown_ok) and all(unknown_ok), US, "AtomParser", "no table symbol is a suffix => error") if unknown_ok \
+        else ctx.unrecognised(US, "AtomParser", "no table symbol is a suffix => error", "no test of the candidate list found")
+    ctx.check(not singles, US, "AtomParser", "the text in front of the unit symbol is never cut down to a single character",
+              detail=singles or None, expected="slice that keeps the whole remainder (e.g. string[1:-len(base)])")
+    if prefix_by_suffix and not [m for m in member if m]:
+        ctx.violated(US, "AtomParser", "prefix is recognised by whole-string membership",
+                     detail="prefix matched with endswith: text in front of the prefix is dropped unmatched",
+                     expected="<remainder> in UNIT_PREFIXES")
         return
-    pi = pre[0]
-    ctx.holds(US, "AtomParser", "prefix is recognised by whole-string membership", detail=norm(pi.test))
-    tail = pi.orelse
-    ok = len(tail) == 1 and isinstance(tail[0], ast.If) and norm(tail[0].test) in (f"len({p}) > 0", f"{p}", f"len({p}) >= 1", f"{p} != ''") \
-        and any(isinstance(x, ast.Raise) for x in tail[0].body)
-    ctx.check(ok, US, "AtomParser", "non-empty text that is not a prefix is an error",
-              detail=norm(tail[0].test) if tail and isinstance(tail[0], ast.If) else None, expected=f"elif len({p}) > 0: raise")
-    # R2: admissibility table inside the prefix branch
-    chain = [s for s in pi.body if isinstance(s, ast.If)]
-    if not chain:
-        ctx.unrecognised(US, "AtomParser", "prefix admissibility", "no decision chain in the prefix branch", rule="C03.R2")
+    if not member or any(m is None for m in member):
+        ctx.unrecognised(US, "AtomParser", "prefix decision", "no `<text> in UNIT_PREFIXES` test found on some accepting path")
         return
-
-    class H(K_handler):
-        pass
+    ctx.holds(US, "AtomParser", "prefix is recognised by whole-string membership", detail=sorted(set(member))[:2])
+    kinds = {r[0] for r in rem}
+    if kinds <= {"ok"}:
+        ctx.holds(US, "AtomParser", "unit symbol: the pad and exactly the matched suffix are removed, the rest is kept", detail=sorted({r[1] for r in rem})[:2])
+    elif kinds & {"slice", "index"}:
+        ctx.violated(US, "AtomParser", "unit symbol: the pad and exactly the matched suffix are removed, the rest is kept",
+                     detail=sorted({r[1] for r in rem if r[0] != "ok"}), expected="text[1:-len(base)]")
+    else:
+        ctx.unrecognised(US, "AtomParser", "unit symbol: the pad and exactly the matched suffix are removed, the rest is kept",
+                         f"tested remainder is {sorted({r[1] for r in rem if r[0] != 'ok'})[:2]}")
+    nk = {n[0] for n in nonmember}
+    if nonmember and nk <= {"ok"}:
+        ctx.holds(US, "AtomParser", "non-empty text that is not a prefix is an error", detail=sorted({n[1] for n in nonmember})[:2])
+    elif nk & {"threshold", "wrong-outcome", "none"}:
+        ctx.violated(US, "AtomParser", "non-empty text that is not a prefix is an error",
+                     detail=sorted({f"{n[0]}: {n[1]}" for n in nonmember if n[0] != "ok"}), expected="elif len(<remainder>) > 0: raise")
+    else:
+        ctx.unrecognised(US, "AtomParser", "non-empty text that is not a prefix is an error", f"{sorted({str(n) for n in nonmember})[:3]}")
+    # R2: admissibility table over the paths on which the remainder is a prefix
+    cp = cells.get("paths", [])
+    if not cp:
+        ctx.unrecognised(US, "AtomParser", "prefix admissibility", "no path with a recognised prefix", rule="C03.R2")
+        return
     for pref_kind in ("list", "True", "False"):
-        for member in (True, False):
-            if pref_kind != "list" and not member:
+        for listed in (True, False):
+            if pref_kind != "list" and not listed:
                 continue
-            h = PrefixHandler(pref_kind, member)
-            from ..predtable import run_block
-            try:
-                sig = run_block([chain[0]], h)
-            except Unrecognised as e:
-                ctx.unrecognised(US, "AtomParser", f"admissibility cell prefixes={pref_kind} listed={member}", str(e), rule="C03.R2")
+            outcomes, unknown = set(), []
+            for q, L, BASE, after in cp:
+                consistent = True
+                for t in after:
+                    v = _adm_truth(t.resolved, L, BASE, pref_kind, listed)
+                    if v is None:
+                        unknown.append(norm(t.resolved)[:120])
+                        consistent = None
+                        break
+                    if v != t.extra:
+                        consistent = False
+                        break
+                if consistent:
+                    outcomes.add("raise" if q.status == "raise" else "accept")
+            cname = f"admissibility cell prefixes={pref_kind} listed={listed}"
+            if unknown and not outcomes:
+                ctx.unrecognised(US, "AtomParser", cname, f"test not interpretable: {unknown[0]}", rule="C03.R2")
                 continue
-            want_raise = (pref_kind == "list" and not member) or pref_kind == "False"
-            ctx.check((sig == "raise") == want_raise, US, "AtomParser",
-                      f"admissibility cell prefixes={pref_kind} listed={member}", detail=sig,
-                      expected="raise" if want_raise else "accept", rule="C03.R2")
-    uid = [norm(s) for s in pi.body if isinstance(s, ast.Assign)]
-    ctx.form(any(s == "unitid = f'{prefix:s}{SYMBOL_UNITID}{unitid}'" for s in uid) or any("SYMBOL_UNITID" in s and "prefix" in s for s in uid),
-              US, "AtomParser", "accepted prefix and unit form the id prefix:unit", detail=uid, rule="C03.R2")
+            want = "raise" if (pref_kind == "list" and not listed) or pref_kind == "False" else "accept"
+            if len(outcomes) != 1:
+                ctx.unrecognised(US, "AtomParser", cname, f"paths consistent with the cell give {sorted(outcomes)}", rule="C03.R2")
+                continue
+            ctx.check(outcomes == {want}, US, "AtomParser", cname, detail=sorted(outcomes)[0], expected=want, rule="C03.R2")
+    rets = [norm(e.resolved) for q, L, BASE, after in cp if q.status == "return" for e in q.events if e.kind == "return"]
+    Ls = {norm(L) for q, L, BASE, after in cp}
+    ctx.form(bool(rets) and all("SYMBOL_UNITID" in r and any(l in r for l in Ls) for r in rets), US, "AtomParser",
+             "accepted prefix and unit form the id prefix:unit", detail=rets[:1], rule="C03.R2")
 
 
-from ..predtable import Handler as K_handler  # noqa: E402
-
-
-class PrefixHandler(K_handler):
-    def __init__(self, pref_kind, member):
-        super().__init__()
-        self.k, self.m = pref_kind, member
-
-    def test(self, node):
-        s = norm(node)
-        if s == "isinstance(UNIT_STANDARD[base].prefixes, list)":
-            return self.k == "list"
-        if s == "prefix not in UNIT_STANDARD[base].prefixes":
-            return not self.m
-        if s == "prefix in UNIT_STANDARD[base].prefixes":
-            return self.m
-        if s == "UNIT_STANDARD[base].prefixes is True":
-            return self.k == "True"
-        if s == "UNIT_STANDARD[base].prefixes is False":
-            return self.k == "False"
-        if s in ("prefix not in UNIT_PREFIXES.keys()", "prefix not in UNIT_PREFIXES"):
-            return False     # dominated by the membership test
-        if s in ("prefix in UNIT_PREFIXES.keys()", "prefix in UNIT_PREFIXES"):
-            return True
-        if s == "not UNIT_STANDARD[base].prefixes":
-            return self.k == "False"
-        return None
+def _adm_truth(t, L, BASE, kind, listed):
+    from ..flowexpr import expr_from
+    if isinstance(t, ast.BoolOp):
+        vs = [_adm_truth(v, L, BASE, kind, listed) for v in t.values]
+        if any(v is None for v in vs):
+            return None
+        return all(vs) if isinstance(t.op, ast.And) else any(vs)
+    if isinstance(t, ast.UnaryOp) and isinstance(t.op, ast.Not):
+        v = _adm_truth(t.operand, L, BASE, kind, listed)
+        return None if v is None else not v
+    s = norm(t)
+    P = norm(expr_from("UNIT_STANDARD[B].prefixes", B=BASE))
+    l = norm(L)
+    table = {
+        f"isinstance({P}, list)": kind == "list",
+        f"{l} not in {P}": not listed,
+        f"{l} in {P}": listed,
+        f"{P} is True": kind == "True",
+        f"{P} is False": kind == "False",
+        f"{P} == True": kind == "True",
+        f"{P} == False": kind == "False",
+        f"{l} not in UNIT_PREFIXES.keys()": False,
+        f"{l} not in UNIT_PREFIXES": False,
+        f"{l} in UNIT_PREFIXES.keys()": True,
+        f"{l} in UNIT_PREFIXES": True,
+    }
+    if s in table:
+        return table[s]
+    if s == f"not {P}":
+        return kind == "False"
+    return None
 
 
 # ---------------------------------------------------------------- R3
@@ -272,67 +374,101 @@ def _sym(src, env=None):
 
 
 def r4_unit_base(ctx):
+    """Value-level: on every path the returned Base(magnitude, dimensions, ...) is resolved to an expression over
+    the unit id, the exponent and the tables, and compared as a term with the definition of the id form the
+    path's tests select."""
+    from ..flowexpr import paths
     fn = ctx.fn(BU, "get_unit_base")
-    chain = [s for s in fn.body if isinstance(s, ast.If) and "startswith(SYMBOL_SYSTEM_UNIT)" in norm(s.test)]
-    if len(chain) != 1:
-        ctx.unrecognised(BU, "get_unit_base", "id forms", "three-way decision on the unit id not found")
-        return
-    node = chain[0]
-    branches = {"system": node.body}
-    nxt = node.orelse
-    if len(nxt) == 1 and isinstance(nxt[0], ast.If) and norm(nxt[0].test) == "SYMBOL_UNITID in unitid":
-        branches["prefixed"] = nxt[0].body
-        branches["plain"] = nxt[0].orelse
-    else:
-        ctx.unrecognised(BU, "get_unit_base", "id forms", "prefixed/plain decision not found")
-        return
-    E = "exp.value(dtype=float)"
+    uid = fn.args.args[0].arg
+    ex = fn.args.args[1].arg if len(fn.args.args) > 1 else "exp"
+    E = f"{ex}.value(dtype=float)"
     want = {
-        "system": ("QUANTITY_UNITS[unitid][0] ** EXP", "Dimensions.from_list(QUANTITY_UNITS[unitid][1]) * exp"),
-        "prefixed": ("(UNIT_PREFIXES[prefix].magnitude * UNIT_STANDARD[base].magnitude) ** EXP",
-                     "Dimensions.from_list(UNIT_STANDARD[base].dimensions) * exp"),
-        "plain": ("UNIT_STANDARD[base].magnitude ** EXP", "Dimensions.from_list(UNIT_STANDARD[base].dimensions) * exp"),
+        "system": (f"QUANTITY_UNITS[{uid}][0] ** EXP", f"Dimensions.from_list(QUANTITY_UNITS[{uid}][1]) * {ex}", None, uid),
+        "prefixed": ("(UNIT_PREFIXES[PRE].magnitude * UNIT_STANDARD[BASE].magnitude) ** EXP",
+                     f"Dimensions.from_list(UNIT_STANDARD[BASE].dimensions) * {ex}", "PRE", "BASE"),
+        "plain": (f"UNIT_STANDARD[{uid}].magnitude ** EXP", f"Dimensions.from_list(UNIT_STANDARD[{uid}].dimensions) * {ex}", None, uid),
     }
-    for name, stmts in branches.items():
-        env = {}
-        got = {}
-        for st in stmts:
-            if isinstance(st, ast.Assign) and len(st.targets) == 1 and isinstance(st.targets[0], ast.Name):
-                t = st.targets[0].id
-                if t == "qu":
-                    env["qu[0]"] = _sym("QUANTITY_UNITS[unitid][0]") if norm(st.value) == "QUANTITY_UNITS[unitid]" else Term.sym("?qu0")
-                    env["qu[1]"] = Term.sym("QUANTITY_UNITS[unitid][1]") if norm(st.value) == "QUANTITY_UNITS[unitid]" else Term.sym("?qu1")
-                elif t in ("magnitude", "dimensions"):
-                    try:
-                        got[t] = SymEval(dict(env, **{"EXP": Term.sym("EXP")})).ev(_replace_exp(st.value, E))
-                    except NotSymbolic as e:
-                        got[t] = None
-        for t, wsrc in zip(("magnitude", "dimensions"), want[name]):
-            wenv = {"qu[0]": Term.sym("QUANTITY_UNITS[unitid][0]"), "qu[1]": Term.sym("QUANTITY_UNITS[unitid][1]")}
-            w = SymEval(wenv).ev(ast.parse(wsrc.replace("QUANTITY_UNITS[unitid][0]", "qu[0]").replace("QUANTITY_UNITS[unitid][1]", "qu[1]"), mode="eval").body)
-            g = got.get(t)
-            if g is None:
+    split = f"{uid}.split(SYMBOL_UNITID)"
+    seen = {}
+    for q in paths(fn):
+        if q.status != "return":
+            continue
+        form = None
+        skip = False
+        for t in q.tests():
+            k = norm(t.resolved)
+            if k == f"{ex} is None":
+                skip = skip or t.extra
+            elif k == f"{uid}.startswith(SYMBOL_SYSTEM_UNIT)":
+                if t.extra and form is None:
+                    form = "system"
+            elif k in (f"SYMBOL_UNITID in {uid}",):
+                if form is None:
+                    form = "prefixed" if t.extra else "plain"
+        if skip:
+            continue
+        ret = [e for e in q.events if e.kind == "return"][-1].resolved
+        if form is None or not (isinstance(ret, ast.Call) and dotted_name(ret.func) == "Base" and len(ret.args) == 4):
+            ctx.unrecognised(BU, "get_unit_base", "id forms", f"path with tests {[norm(t.resolved)[:50] for t in q.tests()]} not classified")
+            continue
+        seen.setdefault(form, []).append((q, ret))
+    for name in ("system", "prefixed", "plain"):
+        if name not in seen:
+            ctx.unrecognised(BU, "get_unit_base", f"{name}: magnitude", "term not found / not symbolic")
+            continue
+        wm, wd, wpre, wbase = want[name]
+        for t, wsrc, idx in (("magnitude", wm, 0), ("dimensions", wd, 1)):
+            verdicts, found = [], []
+            for q, ret in seen[name]:
+                src = norm(_replace_exp(ret.args[idx], E))
+                src = src.replace(split + "[0]", "PRE").replace(split + "[1]", "BASE")
+                try:
+                    g = SymEval({}).ev(ast.parse(src, mode="eval").body)
+                    w = SymEval({}).ev(ast.parse(wsrc, mode="eval").body)
+                except (NotSymbolic, SyntaxError):
+                    verdicts.append(None)
+                    continue
+                verdicts.append(g.equals(w))
+                found.append(g.key())
+            if any(v is None for v in verdicts):
                 ctx.unrecognised(BU, "get_unit_base", f"{name}: {t}", "term not found / not symbolic")
             else:
-                ctx.check(g.equals(w), BU, "get_unit_base", f"{name} id: {t}", detail=g.key(), expected=w.key())
-    # id split
-    ctx.form("prefix, base = unitid.split(SYMBOL_UNITID)" in [norm(s) for s in branches["prefixed"]], BU, "get_unit_base",
-              "prefixed id is split into (prefix, unit) in that order")
-    # expression text
-    s = norm(fn)
-    ctx.form("expression = f'{prefix}{base}{exp}'" in s and "expression = f'{prefix}{base}'" in s and "exp.num == 1 and exp.den == 1" in s,
-              BU, "get_unit_base", "rendered text is prefix+unit, followed by the exponent unless it is 1")
+                ctx.check(all(verdicts), BU, "get_unit_base", f"{name} id: {t}", detail=sorted(set(found))[0], expected=wsrc)
+    # id split: prefix first, unit second (decided by the terms above: PRE indexes UNIT_PREFIXES, BASE indexes UNIT_STANDARD)
+    pre_ok = all(norm(ret.args[2]) == (split + "[1]") for q, ret in seen.get("prefixed", [])) and bool(seen.get("prefixed"))
+    ctx.form(pre_ok, BU, "get_unit_base", "prefixed id is split into (prefix, unit) in that order",
+             detail=[norm(ret.args[2]) for q, ret in seen.get("prefixed", [])])
+    # expression text: prefix+unit, followed by the exponent unless it is 1
+    ok = bool(seen)
+    shapes = []
+    for name, lst in seen.items():
+        for q, ret in lst:
+            one = None
+            for t in q.tests():
+                if norm(t.resolved) == f"{ex}.num == 1 and {ex}.den == 1":
+                    one = t.extra
+            txt = ret.args[3]
+            parts = [norm(v.value) if isinstance(v, ast.FormattedValue) else repr(v.value) for v in txt.values] if isinstance(txt, ast.JoinedStr) else None
+            pre = {"system": "''", "plain": "''", "prefixed": split + "[0]"}[name]
+            base = {"system": uid, "plain": uid, "prefixed": split + "[1]"}[name]
+            wantp = [pre, base] + ([ex] if one is False else [])
+            if parts is not None:
+                parts = [x for x in parts if x not in ("''", repr(""))]
+                wantp = [x for x in wantp if x != "''"]
+            shapes.append((name, one, parts))
+            ok = ok and one is not None and parts == wantp
+    ctx.form(ok, BU, "get_unit_base", "rendered text is prefix+unit, followed by the exponent unless it is 1", detail=shapes[:3])
 
 
 def _replace_exp(node, Esrc):
-    import copy
+    from ..normalise import clone
 
     class T(ast.NodeTransformer):
         def visit_Call(self, n):
             if norm(n) == Esrc:
                 return ast.Name(id="EXP", ctx=ast.Load())
             return self.generic_visit(n)
-    return T().visit(copy.deepcopy(node))
+    return T().visit(clone(node))
 
 
 def r5_accumulation(ctx):
@@ -507,14 +643,97 @@ def r6_fraction(ctx):
     else:
         ctx.unrecognised(FR, "Fraction.from_tuple", "order", "not `return Fraction(value[i], value[j])`")
     # normal form: sign on the numerator, gcd removed
-    fn = ctx.fn(FR, "Fraction.rebase")
-    s = norm(fn)
-    ctx.form("np.gcd(num, den)" in s and "self.num, self.den = reduce(self.num, self.den)" in s, FR, "Fraction.rebase", "common divisors are removed")
-    ctx.form(s.count("self.num = -self.num") == 2 and s.count("self.den = -self.den") == 2 and "self.den < 0" in s, FR, "Fraction.rebase",
-              "a negative denominator is normalised by negating both parts")
+    _rebase_signs(ctx)
     fn = ctx.fn(FR, "Fraction.value")
     s = norm(fn)
     ctx.form("return self.num / self.den" in s and "return (self.num, self.den)" in s, FR, "Fraction.value", "value forms are num/den and (num, den)")
+
+
+def _rebase_signs(ctx):
+    """Fraction.rebase as a decision table over the signs of (num, den): the statements are interpreted on the
+    sign domain {-,0,+}; afterwards the denominator is positive and the sign of the value is unchanged."""
+    fn = ctx.fn(FR, "Fraction.rebase")
+    mod = ctx.repo.module(FR)
+    reducers = []
+
+    def val(e, st):
+        if isinstance(e, ast.Constant) and isinstance(e.value, (int, float)):
+            return "0" if e.value == 0 else ("+" if e.value > 0 else "-")
+        if isinstance(e, ast.UnaryOp) and isinstance(e.op, ast.USub):
+            v = val(e.operand, st)
+            return {"+": "-", "-": "+", "0": "0"}[v]
+        d = dotted_name(e)
+        if d in st:
+            return st[d]
+        raise Unrecognised(f"value {norm(e)}")
+
+    def cmp(op, a, b):
+        order = {"-": -1, "0": 0, "+": 1}
+        if b != "0" and a == b:
+            raise Unrecognised("comparison of two non-zero values of equal sign")
+        x, y = order[a], order[b]
+        return {ast.Lt: x < y, ast.LtE: x <= y, ast.Gt: x > y, ast.GtE: x >= y, ast.Eq: x == y, ast.NotEq: x != y}[op]
+
+    def truth(t, st):
+        if isinstance(t, ast.BoolOp):
+            vs = [truth(v, st) for v in t.values]
+            return all(vs) if isinstance(t.op, ast.And) else any(vs)
+        if isinstance(t, ast.UnaryOp) and isinstance(t.op, ast.Not):
+            return not truth(t.operand, st)
+        if isinstance(t, ast.Compare) and len(t.ops) == 1:
+            if isinstance(t.ops[0], (ast.In, ast.NotIn)) and isinstance(t.comparators[0], (ast.List, ast.Tuple, ast.Set)):
+                r = any(cmp(ast.Eq, val(t.left, st), val(c, st)) for c in t.comparators[0].elts)
+                return r if isinstance(t.ops[0], ast.In) else not r
+            if type(t.ops[0]) in (ast.Lt, ast.LtE, ast.Gt, ast.GtE, ast.Eq, ast.NotEq):
+                return cmp(type(t.ops[0]), val(t.left, st), val(t.comparators[0], st))
+        raise Unrecognised(f"test {norm(t)}")
+
+    def run(stmts, st):
+        for s_ in stmts:
+            if isinstance(s_, (ast.FunctionDef, ast.Pass)) or (isinstance(s_, ast.Expr) and isinstance(s_.value, ast.Constant)):
+                continue
+            if isinstance(s_, ast.If):
+                run(s_.body if truth(s_.test, st) else s_.orelse, st)
+            elif isinstance(s_, ast.Assign) and len(s_.targets) == 1 and dotted_name(s_.targets[0]) in st:
+                st[dotted_name(s_.targets[0])] = val(s_.value, st)
+            elif isinstance(s_, ast.Assign) and len(s_.targets) == 1 and isinstance(s_.targets[0], ast.Tuple) \
+                    and [dotted_name(e) for e in s_.targets[0].elts] == ["self.num", "self.den"]:
+                v = s_.value
+                if isinstance(v, ast.Tuple) and len(v.elts) == 2:
+                    a, b = val(v.elts[0], st), val(v.elts[1], st)
+                    st["self.num"], st["self.den"] = a, b
+                elif isinstance(v, ast.Call) and [dotted_name(a) for a in v.args] == ["self.num", "self.den"]:
+                    reducers.append(v)      # sign-preserving if it is the gcd reduction (checked below)
+                else:
+                    raise Unrecognised(f"statement {norm(s_)}")
+            else:
+                raise Unrecognised(f"statement {norm(s_)}")
+
+    rows, bad = [], []
+    try:
+        for n0 in "-0+":
+            for d0 in "-+":
+                st = {"self.num": n0, "self.den": d0}
+                run(fn.body, st)
+                want_n = "0" if n0 == "0" else ("+" if n0 == d0 else "-")
+                rows.append(f"({n0},{d0})->({st['self.num']},{st['self.den']})")
+                if st["self.den"] != "+" or st["self.num"] != want_n:
+                    bad.append(rows[-1])
+    except Unrecognised as e:
+        ctx.unrecognised(FR, "Fraction.rebase", "a negative denominator is normalised by negating both parts", str(e))
+    else:
+        ctx.check(not bad, FR, "Fraction.rebase", "a negative denominator is normalised by negating both parts", detail=bad or rows,
+                  expected="denominator positive afterwards, sign of num/den unchanged, for all six sign cases")
+    # the reduction divides both parts by their gcd
+    ok = False
+    for c in reducers[:1]:
+        name = dotted_name(c.func)
+        cal = next((x for x in ast.walk(fn) if isinstance(x, ast.FunctionDef) and x.name == name and x is not fn), None) or mod.functions.get(name or "")
+        if cal is not None and len(cal.args.args) == 2:
+            a, b = (x.arg for x in cal.args.args)
+            src = norm(cal)
+            ok = any(f"gcd({a}, {b})" in src for _ in [0]) and f"int({a} / gcd)" in src and f"int({b} / gcd)" in src and f"return (int({a}), int({b}))" in src
+    ctx.form(ok, FR, "Fraction.rebase", "common divisors are removed", detail=[norm(c)[:80] for c in reducers[:1]])
 
 
 # ---------------------------------------------------------------- R7
